@@ -44,4 +44,13 @@ theorem product_fully_written {S : Type} [CommSemiring S] (keys : List Expo) (a 
 
 /-- non-vacuity -/
 example : fromAttributes .i32 (some .f32) = (.f32, .val .i32 .f32) ∧ promote .u8 .i8 = .i16 := by decide +kernel
+/-- D31: inferring the dtype after cleaning made it depend on `retain_coefficients` — an int64 constant next to an
+all-zero float64 coefficient is int64 with the flag off and float64 with it on; the repaired constructor infers it from
+all coefficients, so the flag is not even an argument of `inferDtype` -/
+theorem old_dtype_depended_on_option :
+    inferDtypeOld false [(.i64, false), (.f64, true)] ≠ inferDtypeOld true [(.i64, false), (.f64, true)] := by
+  decide +kernel
+theorem dtype_is_promotion_of_all (c : DType × Bool) (cs : List (DType × Bool)) :
+    inferDtype (c :: cs) = some (cs.foldl (fun d x => promote d x.1) c.1) := rfl
+
 end Np.Props.C12
